@@ -350,12 +350,12 @@ def main() -> int:
         for ta, tb in ((T.ENDOGENOUS, T.ENDOGENOUS), (T.ENDOGENOUS, T.EXOGENOUS), (T.EXOGENOUS, T.ENDOGENOUS)):
             items.append(('merge', (ta, tb, 'mention', eqs, None)))
             items.append(('merge', (ta, tb, 'acc', eqs, None)))
-    for n_sym in (0, 1, 2, 3) if tier == 'quick' else (0, 1, 2, 3, 4):
+    for n_sym in (0, 1, 2, 3) if tier == 'quick' else (0, 1, 2, 3, 4, 5, 6):
         for lm in ('none', 'given', 'min'):
             for dm in ('none', 'given', 'min'):
                 for hints in (True, False):
                     items.append(('lagsleads', (n_sym, lm, dm, hints, None)))
-    for L in range(0, 5 if tier == 'quick' else 7):
+    for L in range(0, 5 if tier == 'quick' else 12):
         for origin in (0, 1990):
             items.append(('range', (L, origin, None)))
     ps = program_set(tier, vlib.seed())
@@ -418,8 +418,8 @@ def main() -> int:
         'functions_encoded': ['fsic.parser.Symbol.combine', 'fsic.parser.build_model_definition (LAGS/LEADS arithmetic)',
                               'fsic.core.interfaces.SolverMixin.iter_periods'],
         'bounds': {'combine': 'lags, leads, offset: all integers (inductive step => any number of mentions); 9x9 type pairs',
-                   'build_model_definition': f"0..{3 if tier == 'quick' else 4} symbols, all integers for lags/leads/min_*",
-                   'iter_periods': f"span length 0..{4 if tier == 'quick' else 6}, lags/leads in 0..L+1"},
+                   'build_model_definition': f"0..{3 if tier == 'quick' else 6} symbols, all integers for lags/leads/min_*",
+                   'iter_periods': f"span length 0..{4 if tier == 'quick' else 11}, lags/leads in 0..L+1"},
         'stubs': {'fsic.parser.type': 'shadowed so that a symbolic integer reports type int (module global, no source edit)',
                   'SInt.__format__': 'renders an opaque token mapped back to its z3 term'},
         'queries': {k: tot.get(k, 0) for k in ('sat', 'unsat', 'unknown')},
